@@ -368,6 +368,45 @@ def case_typed_input(ctx, name, shape, dtype_name):
                   all_eq(a, b) if a.shape == b.shape else z3.BoolVal(False), replay=rp, timeout_ms=30000, replay_on_unknown=True)
 
 
+def _replay_real_input(name, shape, vals):
+    x = numpy.asarray(vals, dtype=float).reshape(shape) + numpy.arange(int(numpy.prod(shape))).reshape(shape) * 0.37
+    a = numpy.asarray(_real_call("mod", name, x.copy(), 0.5))
+    b = numpy.asarray(_real_call("mod", name, x.astype(complex), 0.5))
+    bad = a.shape != b.shape or not numpy.allclose(a, b, rtol=1e-9, atol=1e-12)
+    return bool(bad), dict(what="%s of a real (float64) array differs from %s of the same values given as complex128" % (name, name), x=x, got=a, want=b)
+
+
+def case_real_input(ctx, name, shape):
+    """phase screens and pupil functions arrive as REAL arrays: the transform of a real array is the transform of the same
+    values given as a complex array (code that takes a different route for real input - a half-spectrum transform - must
+    land on the same spectrum).  The complex twin carries symbolic imaginary parts constrained to 0."""
+    x = symarr("x", shape)
+    eps = symarr("e", shape)
+    xc = numpy.empty(shape, dtype=object)
+    for i in numpy.ndindex(*shape):
+        xc[i] = x[i] + Sym(0, 1) * eps[i]
+    xc = xc.view(core.SA)
+    d = var("d")
+    pre = [z(d.re) > 0] + [z(e.re) == 0 for e in eps.flat]
+    ctx.encoded("aotools.fouriertransform.%s" % name)
+    ctx.bounds.update(shape=list(shape), input="symbolic real array (every element a free real) vs the same values as a complex array", delta="symbolic > 0")
+
+    def go():
+        return numpy.asarray(_call("mod", name, x.copy(), d), dtype=object), numpy.asarray(_call("mod", name, xc.copy(), d), dtype=object)
+    paths, ex = core.run_paths(go, pre, max_paths=64)
+    ctx.explored(ex, len(paths))
+    rp = lambda m: _replay_real_input(name, shape, _vals(m, x))
+    ctx.fallback = rp
+    for pi, pth in enumerate(paths):
+        if pth.exc is not None:
+            ctx.prove("path%d: %s raises %s for a real array" % (pi, name, type(pth.exc).__name__), pre + pth.pc, z3.BoolVal(False), replay=rp, axioms=False)
+            continue
+        a, b = pth.out
+        ctx.prove("path%d: %s of a real array = %s of the same values as a complex array" % (pi, name, name), pre + pth.pc,
+                  all_eq(a, b) if a.shape == b.shape else z3.BoolVal(False), replay=rp, timeout_ms=30000, replay_on_unknown=True)
+    ctx.prove("guard: preconditions satisfiable", pre, z3.BoolVal(False), expect="sat", kind="vacuity", axioms=False)
+
+
 def _vals(m, x):
     try:
         return [float(m(e)) for e in x.flat]
@@ -401,6 +440,8 @@ def build_cases(tier):
     for name, shape in [("ft2", (2, 2)), ("ift2", (2, 2)), ("ft", (4,)), ("rft2", (2, 2))] + ([] if tier == "quick" else [("ft2", (4, 4)), ("ft2", (3, 3)), ("rft", (4,)), ("ift", (3,))]):
         for dt in ("bool", "int64"):
             cases.append(("typed-input/%s/%s/%s" % (name, "x".join(map(str, shape)), dt), case_typed_input, dict(name=name, shape=shape, dtype_name=dt)))
+    for name, shape in [("ft", (3,)), ("ft", (4,)), ("ift", (3,)), ("ft2", (3, 3)), ("ift2", (3, 3)), ("ft2", (2, 3))] + ([] if tier == "quick" else [("ft2", (4, 4)), ("ift2", (4, 4)), ("ft", (5,)), ("ft2", (5, 5))]):
+        cases.append(("real-input/%s/%s" % (name, "x".join(map(str, shape))), case_real_input, dict(name=name, shape=shape)))
     cases.append(("exports", case_exports, {}))
     return cases
 
